@@ -16,31 +16,31 @@ CHECKS = {
     "C01": {
         "level": "model_checking",
         "technique": "TLA+ spec of the file tree, POSIX resolution and the lookup (Fs, Static) model-checked by TLC; TLC-enumerated targets x worlds replayed on both real entry points; responses validated by TLC (Trace_Static, C01Violations); Fs model validated against the OS",
-        "text": "TLC proves on the design that the contained lookup never selects an outside node except through an owner's link (52k world x path states; the implementation-shaped variant is refuted with /../s0). Every target of <= K segments over a 15-token alphabet on 8 worlds and ~1.4k climbing skeletons x leads/query/fragment/method/Range decorations on 12 worlds run through Server::process and Server::process_request; each response is judged by the spec (reserved secret byte values, climbing => error status). One-segment spellings that only climb if the server decodes them (6 dot spellings x 7 encoded / doubly encoded / back-slash separators) are included. A sample of the cases (thorough: all) is also sent to the real binary over a socket. Seeded random deeper worlds add the code -> spec direction.",
+        "text": "TLC proves on the design that the contained lookup never selects an outside node except through an owner's link (52k world x path states; the implementation-shaped variant is refuted with /../s0). Every target of <= K segments over a 15-token alphabet on 8 worlds and ~1.4k climbing skeletons x leads/query/fragment/method/Range decorations on 12 worlds run through Server::process and Server::process_request; each response is judged by the spec (reserved secret byte values, climbing => error status). One-segment spellings that only climb if the server decodes them (6 dot spellings x 7 encoded / doubly encoded / back-slash separators) are included. A sample of the cases (thorough: all) is also sent to the real binary over a socket. Seeded random deeper worlds add the code -> spec direction. Directories inside the root whose names contain '..' without being it (..data, v1..v2, ..., a..) are planted in every world and climbed through.",
         "note": "Trusted: TLC, projector (status, set of byte values >= 128), tree materialiser. Fs!Resolve is checked against std::fs::metadata on every path of the run (a mismatch is a tool error).",
     },
     "C02": {
         "level": "model_checking",
         "technique": "TLA+ spec of lookup / content pattern / MIME table (Static, Fs, MimeTable); TLC-derived paths of menu worlds replayed on Server::process; full responses validated by TLC (C02Violations); seeded random worlds",
-        "text": "All paths derived from three menu worlds (every node, trailing slash, child of file, near-miss, extra slash, .html stem, through directory links) x 4 query/fragment forms, plus random worlds with non-ASCII names and sizes around 8192/10000: status, exact body bytes (spec-defined pattern with all 256 values), Content-Length, Content-Type by final extension, 404 never another file or a listing.",
+        "text": "All paths derived from three menu worlds (every node, trailing slash, child of file, near-miss, extra slash, .html stem, through directory links) x 4 query/fragment forms, plus random worlds with non-ASCII names and sizes around 8192/10000: status, exact body bytes (spec-defined pattern with all 256 values), Content-Length, Content-Type by final extension, 404 never another file or a listing. File modification times are spread over every month, year turns, leap days, the epoch, 2^31 / 2^32 seconds and 2100.",
         "note": "Trusted: TLC, projector, materialiser, the MIME table transcribed once from the pinned tree. Reserved routes (/, /style.css, ...) and the statement's silent corner (index-less directory with sibling .html) are left free.",
     },
     "C03": {
         "level": "model_checking",
         "technique": "TLA+ range algebra (Static: InFile/Slice/CRParse/MultiParts) model-checked by TLC (MC_Range); TLC-enumerated Range headers x file lengths replayed on Server::process; 206/416 responses incl. multipart bodies parsed and validated by TLC",
-        "text": "Every single range-spec with offsets from {0,1,L-2,L-1,L,L+1,u64max,>u64max,junk} for L in {0,1,2,3,10,8191,8192,8193,70000}, slices whose length is a whole number of 16/32/64 KiB blocks (+-1) on the large file, offsets around 4096 on the 8 KiB files, all pairs (thorough: triples) over a reduced set, whitespace / wrong unit / empty list; in-process and over a socket against the real binary; labels, sizes, exact slice bytes, part order and multipart structure are checked by spec operators on the raw bytes.",
+        "text": "Every single range-spec with offsets from {0,1,L-2,L-1,L,L+1,u64max,>u64max,junk} for L in {0,1,2,3,10,8191,8192,8193,70000}, slices whose length is a whole number of 16/32/64 KiB blocks (+-1) on the large file, offsets around 4096 on the 8 KiB files, all pairs (thorough: triples) over a reduced set, whitespace / wrong unit / empty list; in-process and over a socket against the real binary; labels, sizes, exact slice bytes, part order and multipart structure are checked by spec operators on the raw bytes. A 12 MiB file with slices of 1 / 4 / 8 MiB (one byte more or less), 10 and 12 MB (bodies over 1 MiB judged by label, both lengths and a 400-byte sample) and a 2 MiB file with 1100 / 2000 ranges (length x count beyond 2^31 / 2^32).",
         "note": "Known finding KF-C03-end-is-length (Content-Range end = L) is matched by a part-by-part diagnosis computed in the spec (parts in {ok,endL}); any other deviation is a VIOLATION.",
     },
     "C09": {
         "level": "model_checking",
         "technique": "relational trace validation in TLA+ (Trace_Static keeps the last GET response per entry point; C09Violations relates HEAD/OPTIONS to it; Cors!CorsViolations for the preflight grants); TLC-generated servable paths replayed as GET/HEAD/OPTIONS triples on both entry points",
-        "text": "Every servable path of two menu worlds (files, directory indexes, .html fallbacks, via links, built-in assets) x {prod, legacy} x Range x Origin x preflight headers is run as GET, HEAD, OPTIONS; HEAD must equal GET in status and headers (timestamp excluded) with the GET body's Content-Length and no body; OPTIONS must be a bodiless success with the configured preflight grants.",
+        "text": "Every servable path of two menu worlds (files, directory indexes, .html fallbacks, via links, built-in assets) x {prod, legacy} x Range x Origin x preflight headers is run as GET, HEAD, OPTIONS; HEAD must equal GET in status and headers (timestamp excluded) with the GET body's Content-Length and no body; OPTIONS must be a bodiless success with the configured preflight grants. The triples are also sent with query and fragment spellings of every servable path.",
         "note": "Default configuration (allow-all CORS) in the harness process.",
     },
     "C04": {
         "level": "exploration",
         "technique": "TLA+ connection state machine (Conn.tla) model-checked by TLC; TLC-generated structure-aware mutations of requests (Mutation.tla, Gen_Conn) x handlers x transport scripts replayed on Server::process in child processes; every transport call validated by TLC as a Conn step (Trace_Conn)",
-        "text": "Every single mutation (thorough: pairs) of 20 seed requests, three application handlers and 60 transport scripts; a panic, abort (stack overflow), a call that never returns (outcome hang: re-reading an exhausted transport, or 45 s without progress) or a missing/incomplete answer has no action in Conn and is rejected; unparseable request lines and handler errors must yield an error status. The space is unbounded, so this is exploration of a structured space, not exhaustive.",
+        "text": "Every single mutation (thorough: pairs) of 20 seed requests, three application handlers and 60 transport scripts; a panic, abort (stack overflow), a call that never returns (outcome hang: re-reading an exhausted transport, or 45 s without progress) or a missing/incomplete answer has no action in Conn and is rejected; unparseable request lines and handler errors must yield an error status. The space is unbounded, so this is exploration of a structured space, not exhaustive. 161 registered request header / value pairs (every Sec-Fetch-Dest destination, credentials schemes with and without parameters, ...) x 3 targets x GET/HEAD unmutated; feedback requests (a header derived from the server's own answer); an extreme-answer request (400 ranges of a 6 MiB file) in the wire histories.",
         "note": "Child processes, named thread, 2 MiB stack, dev profile opt-level 0 with overflow checks (what `cargo build` ships). Release-profile stack depth is not sampled.",
     },
     "C05": {
@@ -64,13 +64,13 @@ CHECKS = {
     "C06": {
         "level": "model_checking",
         "technique": "TLA+ Pool.tla (task kind panic, Guarded) and Server.tla model-checked by TLC with the unguarded variants refuted; histories replayed on the real ThreadPool running the closure body of Server::run over scripted transports (Trace_Pool), and against the real binary over sockets with capacity probes (Trace_Server)",
-        "text": "TLC: NoWorkerLost and Capacity (every connection is eventually done while fewer than N are held) for all interleavings of 5 connections on 2 workers; no-guard variants refuted. In-process: histories of failing jobs and 12 connection flavours (garbage, handler panic, read/write/flush faults, 5000 header lines) followed by two probes of N rendezvous tasks, schedule replay + free runs. Wire: every history of <= 2 (thorough 4) connections over {valid, bad, internal, close} for N in {1,2} plus long random ones; then N-1 silent sockets + one request, N requests in flight, process alive.",
+        "text": "TLC: NoWorkerLost and Capacity (every connection is eventually done while fewer than N are held) for all interleavings of 5 connections on 2 workers; no-guard variants refuted. In-process: histories of failing jobs and 12 connection flavours (garbage, handler panic, read/write/flush faults, 5000 header lines) followed by two probes of N rendezvous tasks, schedule replay + free runs. Wire: every history of <= 2 (thorough 4) connections over {valid, bad, internal, close} for N in {1,2} plus long random ones; then N-1 silent sockets + one request, N requests in flight, process alive. Valid requests of every history include requests with bodies; each answer is compared byte for byte (timestamp aside) with the fresh server's answer, also in a sweep of 2N x 5 requests after the probes.",
         "note": "Transport faults that a real socket cannot produce are reached through the mock transport on the real pool only. 3-4 s timeouts decide 'not answered'.",
     },
     "C08": {
         "level": "model_checking",
         "technique": "TLA+ Server.tla: EnvFsUnchanged (no action writes shared state) model-checked by TLC; wire traces of the real binary validated by TLC (Trace_Server: concurrent response = serial response taken from a fresh server)",
-        "text": "24 distinct requests (files up to 300 KB, ranges, HEAD/OPTIONS, three form endpoints carrying distinct secrets, errors) are each answered alone by a freshly started server; multisets of 16 (thorough 32) are then issued together against servers with 1..16 workers in several arrival patterns; every response must equal its serial reference except the timestamp header and the order of echoed form fields.",
+        "text": "24 distinct requests (files up to 300 KB, ranges, HEAD/OPTIONS, three form endpoints carrying distinct secrets, errors) are each answered alone by a freshly started server; multisets of 16 (thorough 32) are then issued together against servers with 1..16 workers in several arrival patterns; every response must equal its serial reference except the timestamp header and the order of echoed form fields. Clients that abandon a 24 MiB transfer join every second mix, and a one-at-a-time sweep follows the mixes.",
         "note": "Bodies over 600 bytes are compared by length and FNV-1a hash (computed by the projector).",
     },
     "C07": {
@@ -88,7 +88,7 @@ CHECKS = {
     "C13": {
         "level": "model_checking",
         "technique": "TLA+ Server.tla (no action writes fs: EnvFsUnchanged model-checked by TLC); wire traces of the real binary under strace validated by TLC (Trace_Server: TSyscall has no action for mutating calls, TManifest requires the manifest unchanged)",
-        "text": "All single mutations of 35 seed requests (incl. PUT/DELETE/PATCH/POST uploads, multipart file parts with harmless, existing, nested and outside-pointing filenames, ?name= values pointing outside) and 10 asset/dir targets x 6 methods are sent to the real binary running under strace -f; every path-naming system call is an event, and the full manifest (paths, kinds, sizes, hashes, link targets) of the served tree, a sibling directory and the parent is compared before/after.",
+        "text": "All single mutations of 35 seed requests (incl. PUT/DELETE/PATCH/POST uploads, multipart file parts with harmless, existing, nested and outside-pointing filenames, ?name= values pointing outside) and 10 asset/dir targets x 6 methods are sent to the real binary running under strace -f; every path-naming system call is an event, and the full manifest (paths, kinds, sizes, hashes, link targets) of the served tree, a sibling directory and the parent is compared before/after. Failure paths (abandoned 24 MiB transfers, resets after sending, 1100 / 2000 ranges of a 2 MiB file) are part of the traced leg.",
         "note": "Trusted: strace's view of the process, the manifest walker. Paths under /dev, /proc, /sys are exempt.",
     },
     "C14": {
@@ -112,7 +112,7 @@ CHECKS = {
     "C17": {
         "level": "model_checking",
         "technique": "TLA+ map round-trip predicate (Codec_Percent); TLC-enumerated name/value maps through URL::build_query/parse_query, FormUrlEncoded, and the two echo endpoints via Server::process; validated by TLC (Trace_Codec)",
-        "text": "8.8k maps: names and values over 28 atoms (reserved characters, % followed by hex / non-hex, encodings of encodings, non-ASCII, astral) and all two-atom concatenations, one and two pairs, 0/3/20 pairs, each through four legs; decoded pairs compared as sets.",
+        "text": "8.8k maps: names and values over 28 atoms (reserved characters, % followed by hex / non-hex, encodings of encodings, non-ASCII, astral) and all two-atom concatenations, one and two pairs, 0/3/20 pairs, each through four legs; decoded pairs compared as sets. The same run validates 1234 requests to the four dynamic endpoints against Endpoints.tla (dispatch rule and answers; E.* notes in the evidence, never violations).",
         "note": "Known finding KF-C17-double-decoding (in the url-search-params dependency).",
     },
     "C19": {
